@@ -9,7 +9,8 @@
      noncopy x s      := s is one of  x[i] = n,  x append= n,  x[i] += n,  pop x,  remove x[i]
 
    General depth (any nesting, any non-slice path, any payload kind): C02_inplace_when_unique, C02_make_mut_cost,
-   C02_consuming_inplace_when_unique (pop / remove by index or key / consume through modify_existing_index;
+   C02_consuming_inplace_when_unique, C02_consuming_statement_inplace (pop / remove by index or key / consume through
+     modify_existing_index, on a value and as a statement on a variable;
      uleaf h cur p := the path p exists below cur and every cell on it AND the cell it leads to has strong count 1;
      remove by slice is excluded - it allocates the removed slice - and so is a missing key of a dictionary with a default,
      where the inserted copy of the default is shared with the default).
@@ -47,6 +48,15 @@ Theorem C02_consuming_inplace_when_unique : forall m, is_inplace_lop m = true ->
   same_cost h h' /\ (lop_path m <> [] -> same_root cur cur').
 Proof. exact m_lop_inplace. Qed.
 Print Assumptions C02_consuming_inplace_when_unique.
+
+(* the same at statement level: `pop x[p]`, `remove x[p][i]`, `consume x[p]` (result discarded) on a variable x whose path p is
+   unshared copies nothing, creates no location, and x still holds the same handle *)
+Theorem C02_consuming_statement_inplace : forall x m, is_inplace_lop m = true -> forall h rs sg cur st' ok,
+  Inv h (handles_list rs) -> repr_list h rs sg -> nth_error rs x = Some cur -> uleaf h cur (lop_path m) ->
+  m_exec_s (mkst h rs) (SMod None x m) = (st', ok) ->
+  same_cost h (mheap st') /\ (lop_path m <> [] -> exists cur', nth_error (roots st') x = Some cur' /\ same_root cur cur').
+Proof. exact exec_mod_inplace. Qed.
+Print Assumptions C02_consuming_statement_inplace.
 
 (* the O(n + k) clause: after `x = [n1, .., nm]`, k statements of the non-copying forms copy 0 elements, create no
    location, and x stays unaliased at every statement boundary *)
